@@ -9,6 +9,7 @@ from vlib.harness import V, derive_seed, run_shards
 from vlib.lib import call, mod
 
 PROPERTY = 'C01'
+AMBIENT_PASS = True        # the same search once more under unusual ambient settings (vlib.run.AMBIENT_SETTINGS)
 RULE = ('rows = the 48 scoring-table rows + 3 veterans\' hurdles aliases + ESAA boys\' 800 m; marks on the '
         '0.01 grid from 0 to 5 % past the zero-point mark (timed) / 1.3 x the 1400-point mark (field): the '
         'complete grid for age=None, and for every age 1..110 the constructed hazard marks (mark*factor an '
@@ -16,6 +17,7 @@ RULE = ('rows = the 48 scoring-table rows + 3 veterans\' hurdles aliases + ESAA 
         'oracle = formula in exact rational / 60-digit decimal arithmetic; carriers float and int. '
         'non-trivial = (row, centi-mark, age band) with an age >= 35, or whose double product 100*mark is '
         'not integer-valued while the decimal one is; distinct by (row, mark, age)')
+RULE = RULE + '; optional arguments also handed over by position (age fourth, esaa fifth)'
 ASSUMPTIONS = ['libm pow is accurate to 1e-9 relative (used only when the result is > 1e-6 away from an integer; '
                '60-digit Decimal otherwise)',
                'events without a row in the combined-events factor table (60, 600, 3000, 5000, 10000, 3000SC) '
